@@ -494,7 +494,7 @@ func check(c Case, st *rig.Stats) error {
 }
 
 var stats = rig.NewStats("C14",
-	"rapid draws a pool of 2-12 domain patterns (literal labels, named / regexp / interceptor / ignored wildcard labels, bursts of 5-7 literal first labels plus a wildcard under one suffix; one case in eight has five to eight wildcard domains and no literal one), a history of 1-20 Add / Delete steps with the literal parts in random letter case, and 1-6 Host strings (a pool domain instantiated with simple or literal-alphabet values in random case, with ':80', ':', ':8x', brackets, brackets+port; special forms; arbitrary strings). After every step each live domain's witness must be accepted with its own (or an equal-or-higher-kind sibling's conforming) parameters, a deleted domain's witness must be rejected unless another live domain matches it, hosts the deleted domain does not match must resolve as before; generated hosts are normalised by the harness (lower-case, valid ':digits*' port stripped, one pair of brackets stripped) and, while the history is add-only, must be accepted iff the C02 reference resolver finds a domain, with parameters in its admissible set; after a delete only 'accepted implies some live domain conforms' is judged. Non-trivial: a live domain was deleted while others stayed; distinct by hash of the case",
+	"rapid draws a pool of 2-12 domain patterns (literal labels, named / regexp / interceptor / ignored wildcard labels, bursts of 5-7 literal first labels plus a wildcard under one suffix; one case in eight has five to eight wildcard domains and no literal one), a history of 1-20 Add / Delete steps with the literal parts in random letter case, and 1-6 Host strings (a pool domain instantiated with simple or literal-alphabet values in random case, with ':80', ':', ':8x', brackets, brackets+port; special forms; arbitrary strings). After every step each live domain's witness must be accepted with its own (or an equal-or-higher-kind sibling's conforming) parameters, a deleted domain's witness must be rejected unless another live domain matches it, hosts the deleted domain does not match must resolve as before; generated hosts are normalised by the harness (lower-case, valid ':digits*' port stripped, one pair of brackets stripped) and, while the history is add-only, must be accepted iff the C02 reference resolver finds a domain, with parameters in its admissible set; after a delete only 'accepted implies some live domain conforms' is judged. Non-trivial: a live domain was deleted while others stayed; distinct by hash of the case. Later additions to the generated domain: The leading Add steps of a quarter of the histories are given to NewHosts as initial domains.",
 	"the word / digit interceptors are registered before any domain is added; the rule name 'num' is registered at a drawn point of the history and only used by wildcards that sit behind a literal label of their own (the statement does not say what a token shared by a domain added before and one added after the registration means)",
 	"letter case is varied in literal text and in parameter names, not inside rules; parameter names are compared case-insensitively")
 
